@@ -12,13 +12,20 @@
     * soundness of the shape of what is accepted: an accepted string yields a conformant, non-empty
       history whose writer text is accepted again (the accepted language is closed under normalisation);
     * the token languages of each class are characterised by C07's round-trip theorems.
-  Not yet a theorem: `accepts_iff_grammar` against the independent character-level grammar
-  (soundness and completeness for non-canonical spellings such as `%01`, `[C+1]`, `@TH1`).  That
-  equivalence is decided on every run against the reference recogniser of the harness (written from the
-  grammar, table-driven from an independent periodic table) on bounded-exhaustive string sets, and by the
-  exhaustive S-atom correspondence.
+    * the documented grammar is a formal object of this development: `Spec.classify`
+      (Purr/Spec/Automaton.lean), a deterministic character-level automaton with a parenthesis counter,
+      written from the property text and the OpenSMILES token tables (element symbols from the independent
+      table `Spec.periodicSymbols`), not from the reader; it is total (`grammar_total`) and every sentence
+      of it is built from the documented tokens by construction.
+  Not yet a theorem: `(read s).2 = .ok ↔ Spec.classify s = .ok` for every string (soundness and
+  completeness for non-canonical spellings such as `%01`, `[C+1]`, `@TH1`).  That equivalence — verdict AND
+  error cursor — is decided on every run: the real reader's verdict is compared with `Spec.classify`
+  executed by the Lean driver (field G of the S-read and S-atom suites: all strings up to a length bound
+  over the SMILES alphabet, every member of every token family and its one-character corruptions,
+  grammar-directed random strings), and again with the harness's own reference recogniser.
 -/
 import Purr.Props.C09
+import Purr.Lemmas.AutomatonL
 namespace Purr.C04
 open Purr
 
@@ -59,5 +66,16 @@ theorem empty_refused : read [] = ([], .fail []) := by
   unfold read
   rw [run.eq_def]
   simp [readAtom, readOrganic, readBracket]
+
+/-- the documented grammar gives every string a verdict, and an error position always lies inside the string -/
+theorem grammar_total (s : Str) :
+    Spec.classify s = .ok ∨ Spec.classify s = .endOfLine ∨ ∃ i, Spec.classify s = .character i ∧ i < s.length :=
+  Spec.classify_total s
+
+/-! non-vacuity: sentences with non-canonical spellings, and non-sentences -/
+example : Spec.classify "[13CH3+1]%01C%01.[Na+]".toList = .ok := by decide +kernel
+example : Spec.classify "[C@TB20]([O-])(F)(Cl)(Br)I".toList = .ok := by decide +kernel
+example : Spec.classify "[C@TB21]".toList = .character 6 := by decide +kernel
+example : Spec.classify "C(C".toList = .endOfLine := by decide +kernel
 
 end Purr.C04
